@@ -30,7 +30,19 @@ def check(loader):
     return out
 
 
-TASKS = [StructTask("frames-of-process", check, note="scalar hints: " + ", ".join(SCALARS))]
+STATE_MODULES = ["hvsrpy.processing", "hvsrpy.timeseries", "hvsrpy.smoothing", "hvsrpy.seismic_recording_3c", "hvsrpy.hvsr_curve", "hvsrpy.hvsr_traditional",
+                 "hvsrpy.hvsr_azimuthal", "hvsrpy.hvsr_diffuse_field", "hvsrpy.statistics", "hvsrpy.psd", "hvsrpy.settings"]
+
+
+def state_check(loader):
+    out = []
+    for m in STATE_MODULES:
+        out += frames.module_state_obligations(m)
+    return out
+
+
+TASKS = [StructTask("frames-of-process", check, note="scalar hints: " + ", ".join(SCALARS)),
+         StructTask("no-hidden-module-state", state_check, note="repeatability: no caches / registries written at module level")]
 
 META = dict(
     level="other",
